@@ -25,7 +25,7 @@ TOL = Fraction(1, 10**10)
 NODE_TYPES = ['LEGENDRE', 'EQUID', 'CHEBY-1', 'CHEBY-2', 'CHEBY-3', 'CHEBY-4']
 QUAD_TYPES = ['RADAU-RIGHT', 'LOBATTO', 'GAUSS', 'RADAU-LEFT']
 IMPLICIT = ['IE', 'LU', 'LU2', 'GS', 'MIN', 'MIN3', 'MIN-SR-NS', 'MIN-SR-S', 'MIN-SR-FLEX', 'IEpar', 'Qpar', 'TRAP', 'TRAPAR', 'PIC', 'VDHS', 'LDU', 'DNODES']
-EXPLICIT = ['EE', 'PIC']
+EXPLICIT = ['EE', 'PIC', 'LF', 'SOE']
 
 
 def _ob(name, ok, info=None):
